@@ -173,11 +173,26 @@ pixman_edge_init (pixman_edge_t *e,
                   pixman_fixed_t y_bot)
 {
     pixman_fixed_t dx, dy;
+    pixman_fixed_48_16_t dx64, dy64;
 
     e->x = x_top;
     e->e = 0;
-    dx = x_bot - x_top;
-    dy = y_bot - y_top;
+
+    /* The differences of two 16.16 numbers need 33 bits.  For an edge
+     * that spans more than the 16.16 range follow the same line with
+     * halved deltas (only their ratio matters) instead of letting them
+     * wrap: INT32_MIN / -1 below is a trap.
+     */
+    dx64 = (pixman_fixed_48_16_t) x_bot - x_top;
+    dy64 = (pixman_fixed_48_16_t) y_bot - y_top;
+    if (dx64 > pixman_max_fixed_48_16 || dx64 <= pixman_min_fixed_48_16 ||
+	dy64 > pixman_max_fixed_48_16 || dy64 <= pixman_min_fixed_48_16)
+    {
+	dx64 /= 2;
+	dy64 /= 2;
+    }
+    dx = (pixman_fixed_t) dx64;
+    dy = (pixman_fixed_t) dy64;
     e->dy = dy;
     e->dx = 0;
 
